@@ -56,7 +56,7 @@ PROPS = {
         ],
     },
     "C11": {
-        "units": ["account", "acctproto", "acctstore", "texts", "storage", "cfgwire", "issue", "http", "acctpayload"],
+        "units": ["account", "acctproto", "acctstore", "texts", "storage", "cfgwire", "issue", "http", "acctpayload", "keys", "config"],
         "design_ref": "DESIGN.md section 5 C11",
         "technique": "Verus function contracts over a ghost record of what the CA holds; signing-key preconditions on the account requests",
         "text": "Deductive proof that synchronize registers only when no account URL is stored or the external binding changed, otherwise sends at "
@@ -158,7 +158,7 @@ PROPS = {
         ],
     },
     "C19": {
-        "units": ["duration", "ratelimit", "config", "cfgwire", "schedule", "storage"],
+        "units": ["duration", "ratelimit", "config", "cfgwire", "schedule", "storage", "texts", "evloop"],
         "design_ref": "DESIGN.md section 5 C19",
         "technique": "Verus safety obligations (overflow, division, unwrap, termination) + value contracts on the period parser",
         "text": "Deductive proof that the period parser, the limiter constructor and its sleep computation have no failing "
